@@ -252,7 +252,7 @@ def work(src):
         res["error"] = ("bn", "RecursionError", tasks_util.site_of(e))
     except Exception as e:
         res["error"] = ("bn", type(e).__name__, tasks_util.site_of(e))
-        res["negated_name"] = negated_name_atom(src)
+    res["negated_name"] = negated_name_atom(src)
     return res
 
 
@@ -319,7 +319,8 @@ def judge(res, sem):
             s = None if sem is None else sem["probs"].get(q)
             out.append(("P(%s = 1) = %r in the exported network%s, ProbLog answers %s = %r (Sem: %s)" % (
                 var, float(m), "" if var == q else " (the exported name of the node of %s)" % q, q, p, s),
-                {"kind": "wrong-marginal", "problog_agrees_with_sem": (s is not None and close(p, s))}))
+                {"kind": "wrong-marginal", "problog_agrees_with_sem": (s is not None and close(p, s)),
+                 "negated_name_node": bool(res.get("negated_name"))}))
     return out
 
 
